@@ -559,7 +559,7 @@ TIMEOUTS = {k: 1200 for k in SUBS}
 
 # sub-spaces re-executed under other interpreter configurations (mc.core.CONFIGS): {configuration: {sub-space: stride}}
 # quick tier: every stride-th planned case, thorough tier: all planned cases
-CONFIG_PASSES = {'x64': {'grad_masks': 6, 'avg_loss': 6, 'hyp_losses': 6}}
+CONFIG_PASSES = {'x64': {'grad_masks': 6, 'avg_loss': 6, 'hyp_losses': 6}, 'x64_late': {'grad_masks': 18, 'avg_loss': 12}}
 
 
 def plan(ctx):
